@@ -231,7 +231,7 @@ def run(ctx):
                 exp = sorted([([str(pt)], 'True'), (sorted([str(pt.neg()), str(dr)]), 'True'), (sorted([str(pt.neg()), str(dr.neg())]), 'False')])
                 alt = sorted([([str(pt)], 'True'), ([str(pt.neg())], str(dr))])
                 ctx.ob(key, sorted(outs) == exp or sorted(outs) == alt, 'paths: is_homogeneous = is_point or is_direction', w, exp, sorted(outs))
-        except AssertionError as e:
+        except (AssertionError, KeyError, ValueError, TypeError, IndexError, ZeroDivisionError, AttributeError) as e:
             ctx.ob(key + '/paths', False, 'path structure', w, 'analysable', str(e))
     ctx.floor('roots analysed', done, len(roots))
     ctx.floor('spatial vector kinds', len(kinds), 6 if ctx.tier == 'quick' else 9)
